@@ -158,13 +158,13 @@ def oracle_trace(ops, obs, pid='C03', kind=None):
                 calls = [x for x in parts if x.startswith('call=')]
                 pred = last(oid)
                 conflict = pred is not None and serial != pred[0]
-                olds = [w for (tid, w) in hist.get(oid, []) if tid == serial]
+                olds = [w for (tid, w) in hist.get(oid, []) if tid == serial and w is not None]
                 if first.startswith('err:Other'):
                     P.append((pid + ':wrong-exception', 'op %d %r raised %s instead of a conflict error' % (i, op, first)))
                 if calls:
                     nontrivial = True
                     bump('resolver-invoked:' + K.TABLE.get(int(rec.split('/')[0]), ('', '?'))[1])
-                    if not conflict or not olds:
+                    if not conflict or not olds or pred[1] is None:
                         P.append((pid + ':resolver-arguments', 'op %d %r: resolver invoked without a conflict: %s' % (i, op, calls)))
                     else:
                         exp = expected_call(rec, olds[-1], pred[1])
@@ -173,7 +173,8 @@ def oracle_trace(ops, obs, pid='C03', kind=None):
                                       'op %d %r: _p_resolveConflict was called with %s, expected exactly one call with '
                                       '(state at the writer\'s serial %d, state committed at %d, state the writer wants) = %s'
                                       % (i, op, calls, serial, pred[0], exp)))
-                elif conflict and olds and kind != 'mapping' and resolvable_class(rec) and first == 'err:Conflict':
+                elif (conflict and olds and pred[1] is not None and kind != 'mapping' and resolvable_class(rec)
+                      and first == 'err:Conflict'):
                     P.append((pid + ':resolver-not-invoked',
                               'op %d %r: ConflictError although the class offers _p_resolveConflict and both revisions '
                               'exist; the resolver was never called' % (i, op)))
@@ -191,8 +192,8 @@ def oracle_trace(ops, obs, pid='C03', kind=None):
                 else:
                     nontrivial = True
                     exp = None
-                    if pred is not None and serial != pred[0]:
-                        olds = [w for (tid, w) in hist.get(oid, []) if tid == serial]
+                    if pred is not None and serial != pred[0] and pred[1] is not None:
+                        olds = [w for (tid, w) in hist.get(oid, []) if tid == serial and w is not None]
                         if olds:
                             exp = expected_merge(rec, olds[-1], pred[1])
                     if exp is None:
@@ -207,6 +208,21 @@ def oracle_trace(ops, obs, pid='C03', kind=None):
                 nontrivial = True
                 if t in cur:
                     cur[t]['failed'].add(oid)
+        elif o == 'delete':
+            t, oid, serial = int(tk[1]), int(tk[2]), int(tk[3])
+            bump('delete:' + first)
+            if first == 'ok':
+                if holder != t or t not in cur:
+                    P.append((pid + ':store-outside-transaction', 'op %d %r accepted for a non-holder' % (i, op)))
+                    continue
+                pred = last(oid)
+                if pred is None or serial != pred[0]:
+                    P.append((pid + ':stale-store-accepted',
+                              'op %d %r: deleteObject accepted with serial %d but the latest committed revision '
+                              'is %s' % (i, op, serial, pred[0] if pred else None)))
+                cur[t]['stores'][oid] = (serial, None, 'ok', pred[0] if pred else None)
+            elif first == 'err:Conflict':
+                nontrivial = True
         elif o == 'check':
             t, oid, serial = int(tk[1]), int(tk[2]), int(tk[3])
             bump('check:' + first)
@@ -297,7 +313,7 @@ def oracle_trace(ops, obs, pid='C03', kind=None):
             if calls:
                 nontrivial = True
                 bump('resolver-invoked:' + K.TABLE.get(int(calls[0][5:].split('|')[0]), ('', '?'))[1])
-            if idx is None or idx == 0:
+            if idx is None or idx == 0 or any(w is None for _, w in h):
                 exp_out, exp_calls = None, None            # unknown tid / undo of the creation: not judged
             elif idx == len(h) - 1 or h[idx][1] == h[-1][1]:
                 exp_out, exp_calls = 'ok ' + h[idx - 1][1], []
@@ -318,18 +334,18 @@ def oracle_trace(ops, obs, pid='C03', kind=None):
                     P.append((pid + (':wrong-exception' if first.startswith('err:Other') else ':undo-stored-differs'),
                               'op %d %r: undo gave %s, expected %s' % (i, op, got_out, exp_out)))
             if first == 'ok' and len(parts) > 1:
-                hist.setdefault(oid, []).append((tid, parts[1]))
+                hist.setdefault(oid, []).append((tid, None if parts[1] == 'none' else parts[1]))
                 if not calls:
                     copyundo.add((oid, tid))
         elif o == 'cur':
             p = last(int(tk[1]))
-            exp = str(p[0]) if p else 'none'
+            exp = str(p[0]) if p and p[1] is not None else 'none'      # getTid of an un-created object: POSKeyError
             if ob != exp:
                 P.append((pid + ':final-state-differs',
                           'op %d %r: storage says %s, the serial replay of the successful transactions %s' % (i, op, ob, exp)))
         elif o == 'load':
             p = last(int(tk[1]))
-            exp = p[1] if p else 'none'
+            exp = p[1] if p and p[1] is not None else 'none'
             if ob != exp:
                 P.append((pid + ':final-state-differs',
                           'op %d %r: storage holds %s, the serial replay of the successful transactions '
@@ -342,7 +358,7 @@ def oracle_trace(ops, obs, pid='C03', kind=None):
         elif o == 'loadserial':
             oid, tid = int(tk[1]), int(tk[2])
             ws = [w for (t2, w) in hist.get(oid, []) if t2 == tid]
-            exp = ws[-1] if ws else 'none'
+            exp = ws[-1] if ws and ws[-1] is not None else 'none'
             if ob != exp:
                 P.append((pid + ':final-state-differs',
                           'op %d %r: revision holds %s, expected %s' % (i, op, ob, exp)))
@@ -437,6 +453,15 @@ def gen_storage_case(rng, kind, size):
             if r < 0.55:
                 oid = rng.choice(oids)
                 serial, seen = view[w].get(oid, (0, 0))
+                seen = seen or 0
+                if kind == 'file' and rng.random() < 0.07 and sim.get(oid):
+                    # IExternalGC.deleteObject: writes an un-creation record (same serial comparison)
+                    if rng.random() < 0.3:
+                        serial = cur(oid)[0]
+                    ops.append('delete %d %d %d' % (w, oid, serial))
+                    if serial == cur(oid)[0]:
+                        staged[w][oid] = None
+                    continue
                 q = rng.random()
                 if q < 0.14:
                     # serials that are "almost right": off by one, the newest tid of the whole storage,
@@ -456,7 +481,8 @@ def gen_storage_case(rng, kind, size):
                 c = cur(oid)
                 if c[0] == 0 or serial == c[0]:
                     staged[w][oid] = val
-                elif resolves(kind) and cls[oid] in (COUNTER, MERGE) and any(t == serial for t, _ in sim.get(oid, [])):
+                elif (resolves(kind) and c[1] is not None and cls[oid] in (COUNTER, MERGE)
+                      and any(t == serial and v is not None for t, v in sim.get(oid, []))):
                     staged[w][oid] = val if cls[oid] == MERGE else c[1] + val - seen
             elif r < 0.70:
                 oid = rng.choice(oids)
@@ -545,10 +571,14 @@ def gen_db_case(rng, kind, size):
             prog.append(['write', c, o, rng.choice([1, 1, 2, 3]), rng.random() < 0.3])
         elif r < 0.67:
             prog.append(['readcur', c, o])
-        elif r < 0.78:
+        elif r < 0.76:
             prog.append(['savepoint', c])       # commit then takes the _commit_savepoint route
-        elif r < 0.94:
+        elif r < 0.80:
+            prog.append(['rollback', c, rng.randrange(4)])      # partial rollback to an earlier savepoint
+        elif r < 0.95:
             prog.append(['commit', c])
+        elif r < 0.97 and kind == 'file':
+            prog.append(['delete', c, o])       # external GC un-creates the object behind the connections' back
         else:
             prog.append(['abort', c])
     for c in range(nconn):
@@ -667,8 +697,20 @@ class ConnActor:
         self.conn = world.db.open(self.tm)
         self.pending = {}        # obj -> dict(parent=value seen at first write, value=last written, delta=sum)
         self.readcur = {}        # obj -> value seen when readCurrent was declared
+        self.sps = []            # [(savepoint, pending at that time, readcur at that time, stored by it)]
+        self.written_since_sp = set()
+        self.dropped = set()
 
     def do(self, step):
+        if step[0] in ('read', 'write', 'readcur'):
+            try:
+                return self._do(step)
+            except Exception as e:      # e.g. POSKeyError / ReadConflictError on an un-created object
+                self.log.append(('error', self.name, step[0], step[2], type(e).__name__))
+                return None
+        return self._do(step)
+
+    def _do(self, step):
         w = self.w
         root = self.conn.root()
         kind = step[0]
@@ -689,6 +731,7 @@ class ConnActor:
                 w.nextval += 1
                 _set(ob, w.nextval)
             p['value'] = _get(ob)
+            self.written_since_sp.add(o)
             self.readcur.pop(o, None)
             self.log.append(('write', self.name, o, seen, _get(ob)))
         elif kind == 'readcur':
@@ -696,6 +739,7 @@ class ConnActor:
             ob = root[o]
             v = _get(ob)
             self.conn.readCurrent(ob)
+            self.dropped.discard(o)
             if o not in self.pending:
                 self.readcur[o] = v
             self.log.append(('readcur', self.name, o, v))
@@ -711,15 +755,64 @@ class ConnActor:
             if out == 'ok':
                 for o in self.pending:
                     after[o] = _get(root[o])       # what the writer's own connection reads now
-            self.log.append(('commit', self.name, out, tid, dict(self.pending), dict(self.readcur), after, ghost))
-            self.pending, self.readcur = {}, {}
+            self.log.append(('commit', self.name, out, tid, dict(self.pending), dict(self.readcur), after, ghost,
+                             set(self.dropped)))
+            self.pending, self.readcur, self.sps = {}, {}, []
+            self.written_since_sp, self.dropped = set(), set()
         elif kind == 'savepoint':
-            self.tm.savepoint()
+            import copy
+            sp = self.tm.savepoint()
+            # (the real savepoint stores what was written since the last one and pops those oids from
+            #  the connection's _readCurrent)
+            self.sps.append((sp, copy.deepcopy(self.pending), dict(self.readcur), set(self.written_since_sp)))
+            self.written_since_sp = set()
             self.log.append(('savepoint', self.name))
+        elif kind == 'rollback':
+            # partial rollback: the transaction goes on; what it wrote since the savepoint is dropped,
+            # every readCurrent declaration stays (those popped by a write that is now rolled back too)
+            if self.sps:
+                k = step[2] % len(self.sps)
+                sp, pend, rc, _ = self.sps[k]
+                sp.rollback()
+                stored_later = set().union(*[x[3] for x in self.sps[k + 1:]]) if self.sps[k + 1:] else set()
+                del self.sps[k + 1:]
+                self.written_since_sp = set()
+                import copy
+                self.pending = copy.deepcopy(pend)
+                merged = dict(rc)
+                merged.update(self.readcur)
+                self.readcur = {o: v for o, v in merged.items() if o not in self.pending}
+                # declarations whose object was written and spilled to a LATER savepoint that is now
+                # rolled back: known finding, the unchanged Connection forgets them
+                self.dropped |= {o for o in self.readcur if o in stored_later and o in rc}
+                self.log.append(('rollback', self.name, k))
         elif kind == 'abort':
             self.tm.abort()
-            self.pending, self.readcur = {}, {}
+            self.pending, self.readcur, self.sps = {}, {}, []
+            self.written_since_sp, self.dropped = set(), set()
             self.log.append(('abort', self.name))
+
+
+def external_delete(w, o, log):
+    """IExternalGC: a raw two-phase commit on the storage that un-creates the object; the DB (and so
+    every connection's cache) is not told"""
+    from ZODB.Connection import TransactionMetaData
+    st = w.storage
+    oid = L.p64(w.oids[o])
+    try:
+        serial = st.getTid(oid)
+    except Exception:
+        return          # already un-created
+    txn = TransactionMetaData()
+    st.tpc_begin(txn)
+    try:
+        st.deleteObject(oid, serial, txn)
+        st.tpc_vote(txn)
+        tid = st.tpc_finish(txn)
+        log.append(('delete', o, L.u64(tid)))
+    except Exception:
+        st.tpc_abort(txn)
+        raise
 
 
 def run_db_real(case, tmp, tag='d'):
@@ -731,7 +824,10 @@ def run_db_real(case, tmp, tag='d'):
         try:
             actors = [ConnActor(w, 'c%d' % i, log) for i in range(case['nconn'])]
             for step in case['prog']:
-                actors[step[1]].do(step)
+                if step[0] == 'delete':
+                    external_delete(w, step[2], log)
+                else:
+                    actors[step[1]].do(step)
             return finish_db(w, log)
         finally:
             w.close()
@@ -776,6 +872,7 @@ def oracle_db(res):
         if e[2].startswith('Other'):
             P.append(('C03:commit-failed-oddly', 'commit of %s raised %s (neither success nor a conflict error)' % (e[1], e[2])))
     ok = sorted((e for e in commits if e[2] == 'ok' and e[3] is not None), key=lambda e: e[3])
+    deleted = {(e[1], e[2]) for e in res['log'] if e[0] == 'delete'}      # (object, tid) of un-creations
     # 1. parent pointers / counter arithmetic along every real revision chain
     bytid = {e[3]: e for e in ok}
     for o, ch in chains.items():
@@ -783,7 +880,14 @@ def oracle_db(res):
             P.append(('C03:final-state-differs', 'object %s: first revision %r is not the set-up value' % (o, ch[:1])))
             continue
         for (t0, v0), (t1, v1) in zip(ch, ch[1:]):
+            if (o, t1) in deleted:
+                continue
             e = bytid.get(t1)
+            if (o, t0) in deleted and e is not None and o in e[4]:
+                P.append(('C03:lost-update',
+                          'object %s was un-created by transaction %d; revision %d (value %r, derived from %r) '
+                          'resurrects it from a stale copy' % (o, t0, t1, v1, e[4][o]['parent'])))
+                continue
             if e is None or o not in e[4]:
                 P.append(('C03:conflict-stored-something',
                           'object %s has revision %d (value %r) that no successful commit wrote' % (o, t1, v1)))
@@ -811,7 +915,7 @@ def oracle_db(res):
         for o, seen in e[5].items():
             before = [v for (t, v) in chains[o] if t < e[3]]
             if before and before[-1] != seen:
-                P.append(('C03:readcurrent-stale-commit',
+                P.append(('C03:readcurrent-dropped-by-rolled-back-write' if o in e[8] else 'C03:readcurrent-stale-commit',
                           'commit %d of %s declared %s current at value %r, but the latest revision before the '
                           'commit holds %r' % (e[3], e[1], o, seen, before[-1])))
     # 2b. after a ReadConflictError the connection must have dropped (ghostified) a stale copy, so
@@ -827,8 +931,15 @@ def oracle_db(res):
                               'copy of %s (not invalidated)' % (e[1], ','.join(stale))))
     # 3. serial replay in tid order
     final = dict(res['initial'])
-    for e in ok:
+    events = sorted([(e[3], 'c', e) for e in ok] + [(e[2], 'd', e) for e in res['log'] if e[0] == 'delete'],
+                    key=lambda x: x[0])
+    for _, kind_, e in events:
+        if kind_ == 'd':
+            final[e[1]] = 'none'
+            continue
         for o, w in e[4].items():
+            if final[o] == 'none':
+                continue        # (already reported as resurrection if it happened)
             final[o] = final[o] + w['delta'] if cls[o] == 'counter' else w['value']
     for o, ch in chains.items():
         if ch and ch[-1][1] != final[o]:
@@ -868,12 +979,17 @@ def gen_sched_case(rng, kind, seed):
                 p.append(['write', 0, rng.choice(objs), rng.choice([1, 1, 2, 3]), rng.random() < 0.3])
                 if rng.random() < 0.2:
                     p.append(['savepoint', 0])
+                    if rng.random() < 0.4:
+                        p.append(['write', 0, rng.choice(objs), rng.choice([1, 2]), False])
+                        p.append(['rollback', 0, rng.randrange(3)])
+                        p.append(['write', 0, rng.choice(objs), rng.choice([1, 2]), False])
             if rng.random() < 0.2:
                 p.append(['readcur', 0, rng.choice(objs)])
             p.append(['commit', 0])
         progs.append(p)
+    hist = rng.choice([0, 0, 0, 2, 3]) if 'file' in kind else 0      # history() calls of an extra reader thread
     return dict(section='sched', kind=kind, objs=objs, cls=cls, progs=progs, sched_seed=seed,
-                mode=rng.choice(['random', 'random', 'sticky']), schedule=None)
+                mode=rng.choice(['random', 'random', 'sticky']), schedule=None, hist=hist)
 
 
 def run_sched_real(case, tmp, tag='t'):
@@ -895,14 +1011,155 @@ def run_sched_real(case, tmp, tag='t'):
                 a.conn.close()
             for i, prog in enumerate(case['progs']):
                 s.spawn('c%d' % i, body, i, prog)
+            if case.get('hist'):
+                # a reader of the storage's shared file object; seek/read become preemption points
+                install_file_proxy(w.storage)
+                s.spawn('h', history_body(w, case['objs'], case['hist']))
             r = s.run(timeout=60)
             if r['deadlock']:
                 raise Stuck('committer threads deadlocked under schedule %r (errors %r)' % (
                     r['decisions'][:60], {k: repr(v)[:80] for k, v in r['errors'].items()}))
             for name, e in r['errors'].items():
-                log.append(('commit', name, 'Other(%s)' % type(e).__name__, None, {}, {}, {}, {}))
+                log.append(('commit', name, 'Other(%s)' % type(e).__name__, None, {}, {}, {}, {}, set()))
             res = finish_db(w, log)
             res['decisions'] = r['decisions']
+            return res
+        finally:
+            w.close()
+
+
+class FileProxy:
+    """delegating proxy for `FileStorage._file` (the storage's single shared file object): every seek /
+    read of a scheduled thread is a preemption point, so that a reader that walks the file WITHOUT the
+    storage lock can be interleaved between the seek and the read of a committer's conflict check"""
+
+    def __init__(self, f, notes):
+        self.__dict__['_f'] = f
+        self.__dict__['_notes'] = notes
+
+    def __getattr__(self, name):
+        return getattr(self._f, name)
+
+    def __setattr__(self, name, value):
+        setattr(self._f, name, value)
+
+    def _yield(self, op):
+        import sched
+        import threading
+        sc = sched._current
+        if sc is not None:
+            t = sc.by_ident.get(threading.get_ident())
+            if t is not None:
+                self._notes.setdefault(t.name, []).append(op)
+                sc.yield_point('io', op)
+
+    def seek(self, *a):
+        self._yield('seek')
+        return self._f.seek(*a)
+
+    def read(self, *a):
+        self._yield('read')
+        return self._f.read(*a)
+
+    def __iter__(self):
+        return iter(self._f)
+
+    def __enter__(self):
+        return self._f.__enter__()
+
+    def __exit__(self, *a):
+        return self._f.__exit__(*a)
+
+
+def file_storage_of(storage):
+    from ZODB.FileStorage import FileStorage
+    for st in (storage, getattr(storage, 'changes', None)):
+        if isinstance(st, FileStorage):
+            return st
+    return None
+
+
+def install_file_proxy(storage):
+    notes = {}
+    fs = file_storage_of(storage)
+    if fs is not None:
+        fs._file = FileProxy(fs._file, notes)
+    return notes
+
+
+def history_body(w, objs, n):
+    def body():
+        out = []
+        for i in range(n):
+            o = objs[i % len(objs)]
+            try:
+                out.append([L.u64(d['tid']) for d in w.storage.history(L.p64(w.oids[o]), 10)])
+            except Exception as e:
+                out.append(type(e).__name__)
+        return out
+    return body
+
+
+def run_histrace_real(case, tmp, tag='h'):
+    """directed schedule: a `history()` reader is parked right before its first file access (in the
+    unchanged code: inside the storage lock), the stale writer's store() is run up to between the seek
+    and the read of its conflict check, the reader is run up to its seek to the PREVIOUS record, then
+    the writer reads.  If history() walks without the lock the writer parses the older header."""
+    import clock
+    import sched
+    with clock.scripted(), sched.installed():
+        w = DbWorld(case, tmp, tag)
+        w.nextval = 5000
+        log = []
+        try:
+            o = case['objs'][0]
+            a0 = ConnActor(w, 'c0', log)
+            a1 = ConnActor(w, 'c1', log)
+            a0.do(['read', 0, o])                       # the stale writer loads revision R0
+            for _ in range(case.get('later', 1)):
+                a1.do(['write', 1, o, 2, False])        # somebody else commits R1 (…)
+                a1.do(['commit', 1])
+            notes = install_file_proxy(w.storage)
+
+            class Directed(sched.Scheduler):
+                phase = 0
+
+                def want(self):
+                    h, wr = notes.get('h', []), notes.get('c0', [])
+                    if self.phase == 0 and 'seek' in h:
+                        self.phase = 1
+                    if self.phase == 1 and 'read' in wr:
+                        self.phase = 2
+                    if self.phase == 2 and h.count('seek') >= 1 + 2 * case.get('later', 1) and h[-1] == 'read':
+                        self.phase = 3
+                    return {0: 'h', 1: 'c0', 2: 'h', 3: 'c0'}[self.phase]
+
+                def _choose(self, cur):
+                    en = [t for t in self.threads if self._enabled(t)]
+                    if not en:
+                        return sched.Scheduler._choose(self, cur)
+                    self.steps += 1
+                    if self.steps > self.max_steps:
+                        return None
+                    want = self.want()
+                    pick = next((t for t in en if t.name == want), None) or (cur if cur in en else en[0])
+                    self.decisions.append(en.index(pick))
+                    return pick
+            s = Directed(seed=0)
+
+            def writer():
+                a0.do(['write', 0, o, 1, False])
+                a0.do(['commit', 0])
+            s.spawn('c0', writer)
+            s.spawn('h', history_body(w, [o], 1))
+            r = s.run(timeout=60)
+            if r['deadlock']:
+                raise Stuck('directed history schedule deadlocked (errors %r)' % (
+                    {k: repr(v)[:80] for k, v in r['errors'].items()},))
+            for name, e in r['errors'].items():
+                log.append(('commit', name, 'Other(%s)' % type(e).__name__, None, {}, {}, {}, {}, set()))
+            res = finish_db(w, log)
+            res['phase'] = s.phase
             return res
         finally:
             w.close()
@@ -977,6 +1234,8 @@ def run_real(case, tmp, tag):
         return dict(ops=ops, obs=obs)
     if case['section'] == 'db':
         return run_db_real(case, tmp, tag)
+    if case['section'] == 'histrace':
+        return run_histrace_real(case, tmp, tag)
     if case['section'] == 'threads':        # replay of a plain-threads finding
         return dict(ops=[], obs=[], threads_problems=run_threads_smoke(case['kind'], tmp, case.get('n', 40)))
     return run_sched_real(case, tmp, tag)
@@ -1017,7 +1276,7 @@ def shrink(case, sig, tmp):
         except InfraError:
             return False
         return any(s == sig for s, _ in P)
-    if case['section'] == 'threads':
+    if case['section'] in ('threads', 'histrace'):
         return case
     if case['section'] == 'storage':
         tail = [o for o in case['ops'] if o.split()[0] in ('cur', 'load', 'hist')]
@@ -1080,6 +1339,11 @@ def main(argv=None):
             if have_sched:
                 for _ in range(n_sc):
                     cases.append(gen_sched_case(ck.rng, kind, ck.rng.randrange(1 << 30)))
+                if kind == 'file':
+                    for c in ('plain', 'counter', 'minpo'):
+                        for later in (1, 2):
+                            cases.append(dict(section='histrace', kind=kind, objs=['o0'], cls={'o0': c},
+                                              nconn=2, later=later))
     results = run_all(ck, cases)
     # ---- model: one driver process for everything
     lines, spans = [], []
